@@ -48,6 +48,17 @@ def step (d : DSt) (ws : List String) : DSt × String :=
     let (s', env', r, rest) := send d.s d.env (hexD m) ans
     let d' := { s := s', env := env' }
     (d', render d' tx0 r (ans.length - rest.length))
+  | ["SL", len, a] =>
+    -- a send of `len` > MBUF_MSG_MAX bytes: the outcome does not depend on the content (Framing.send checks the size first)
+    match len.toNat? with
+    | some l =>
+      if l > Generated.MBUF_MSG_MAX then
+        let ans := parseAns a
+        let (s', env', r, rest) := send d.s d.env (List.replicate (Generated.MBUF_MSG_MAX + 1) 90) ans
+        let d' := { s := s', env := env' }
+        (d', render d' tx0 r (ans.length - rest.length))
+      else (d, "bad-op")
+    | none => (d, "bad-op")
   | ["R", cap, a] =>
     let ans := parseAns a
     let (s', env', r, rest) := receive d.s d.env cap.toNat! ans
